@@ -17,7 +17,7 @@ NCPU = os.cpu_count() or 8
 JOBS = max(2, min(14, NCPU - 2))
 
 sys.path.insert(0, os.path.join(ROOT, "tools"))
-from props import PROPS, OP_OWNERS, REASON_OWNERS  # noqa: E402
+from props import PROPS, OP_OWNERS, REASON_OWNERS, FAILURE_STATED  # noqa: E402
 
 
 class ToolError(Exception):
@@ -285,8 +285,11 @@ def check_property(pid, tier, seed):
                         cov["samples"].append(trim_event(ev))
                 for (ln, op, form, reason) in res["bads"]:
                     ev = events[ln - 1]
-                    if reason in ("noncanon", "srcmod", "crash"):
-                        owners = set(REASON_OWNERS[reason])      # representation / memory rules have their own properties
+                    if reason in ("srcmod", "crash"):
+                        owners = set(REASON_OWNERS[reason])      # memory / termination rules have their own properties
+                    elif reason == "missing_failure":
+                        # "must panic here" is owned by C14 and by the properties whose statement names the failure case
+                        owners = set(REASON_OWNERS[reason]) | (set(OP_OWNERS.get(op, ())) & FAILURE_STATED)
                     else:
                         owners = set(OP_OWNERS.get(op, ())) | set(REASON_OWNERS.get(reason, ()))
                     if "*" in spec.get("owns_reasons", ()) or reason in spec.get("owns_reasons", ()):
